@@ -58,7 +58,7 @@ func (a ConstFloat64) ConvertConstScalar(t ScalarType) ConstScalar {
   case ConstFloat64Type:
     return a
   default:
-    return NewConstScalar(t, a.GetFloat64())
+    return convertConstScalar(a, t)
   }
 }
 /* stringer
